@@ -1,6 +1,6 @@
 ------------------------------ MODULE MC_Pool -------------------------------
 (* Bounded instances of Pool: scenario chosen by IOEnv.VERIF_SCEN *)
-EXTENDS Integers, Sequences, FiniteSets, TLC, IOUtils
+EXTENDS Pool, TLC, IOUtils
 Scen == IOEnv.VERIF_SCEN
 
 \* packets are records [c : connection, dir : "c"|"s", i : index]
@@ -17,8 +17,8 @@ CrateV == IF Scen = "c18_tcp" THEN "tcp" ELSE IF Scen = "c18_tls" THEN "tls" ELS
 ConnOfV(p) == p.c
 \* routing: a function of the connection; the recorded http defect routed the two directions independently
 RouteV(p) == IF Scen = "c10_directed" THEN ((p.c + (IF p.dir = "s" THEN 1 ELSE 0)) % NWv) + 1 ELSE (p.c % NWv) + 1
-ShutV == Scen = "c18_shutdown"
+ShutV == Scen \in {"c18_shutdown", "x03", "x03_dev", "x03_late"}
+DevsV == IF Scen = "x03_dev" THEN {"DX3_timeout_exit"} ELSE {}
 
-VARIABLES q, shutdown, dpc, dnext, dres, outcome, cDispatched, cDropped, wDropped, wpc, batch, analysed, log
-INSTANCE Pool WITH NW <- NWv, Cap <- CapV, Batch <- BatchV, Traces <- TracesV, ConnOf <- ConnOfV, Route <- RouteV, Crate <- CrateV, AllowShutdown <- ShutV
+\* the constants of Pool are bound in the .cfg files (NW <- NWv, ...), so that TLC's coverage names Pool's actions
 =============================================================================
